@@ -8,7 +8,7 @@ read groups and programs through any pointer the caller may hold — stale ones 
 MergeHeaders, field edits), executed by `step` from the empty world.  `E : Ext` (date and URI parsing) is
 arbitrary.
 -/
-import Hts.Lemmas.HeaderClean2
+import Hts.Lemmas.HeaderClean3
 namespace Hts.Props.C07
 open Hts.Model.Header
 
@@ -306,8 +306,9 @@ example : ∃ w', decodeBinary goExt (pushHeader wM {}) wM.hdrs.length (marshalB
 `CleanOp E op`: NewHeader(nil, refs), the Version/SortOrder/GroupOrder fields with a non-empty clean version and orders
 0..3, comments without LF/CR, NewReference/NewReadGroup/NewProgram with well-formed arguments (`WFRef`/`WFRg`/`WFPg`: clean
 strings, valid length, 16-byte MD5, canonical date and URI, distinct unknown extra tags), Add*/Remove*/SetName with a
-clean name/Clone of items, taking pointers out of a header, Header.Clone, MergeHeaders.  Not in the sub-language: parsing of
-text or bytes (`pa`, `um`, `de`, NewHeader with a text) and Header.Set (`hs`). -/
+clean name/Clone of items, taking pointers out of a header, Header.Clone, MergeHeaders, and UnmarshalText / NewHeader(text, refs)
+of a `CleanText` (@SQ/@RG/@PG lines as the serialisers write them from well-formed items, @CO lines without LF/CR, each
+ended by LF).  Not in the sub-language: DecodeBinary (`de`), @HD lines and lines in any other form, Header.Set (`hs`). -/
 
 /-- every live header of a world reached from the empty world through clean operations is API-built, with canonical URIs -/
 theorem apiBuilt_reachable (E : Ext) (ops : List Op) (hc : ∀ op ∈ ops, CleanOp E op) (h : Nat)
@@ -339,12 +340,14 @@ theorem binary_roundtrip_reachable (E : Ext) (ops : List Op) (hc : ∀ op ∈ op
   binary_roundtrip_partial E _ (hinv_reachable E ops).1 h (live_lt hl) (apiBuilt_reachable E ops hc h hl).1
     (apiBuilt_reachable E ops hc h hl).2 hs1 hs2 hs3
 
-/-- non-vacuity: a clean history of 21 operations; its last header (a merge) is live and has two references, two read
-groups and two programs; the theorems above apply to it without any further hypothesis -/
+/-- non-vacuity: a clean history of 22 operations (incl. UnmarshalText of three clean lines); its last header (a merge)
+is live and has three references, three read groups and two programs; the theorems above apply to it without any
+further hypothesis -/
 example : live (run goExt {} exClean) 2 = true ∧
-    (view (run goExt {} exClean) 2).refs.map (fun x => (x.1, x.2.1)) = [(0, str "a"), (1, str "c")] ∧
-    (view (run goExt {} exClean) 2).rgs.map (fun x => (x.1, x.2.1)) = [(0, str "x"), (1, str "g2")] ∧
-    (view (run goExt {} exClean) 2).pgs.map (fun x => (x.1, x.2.1)) = [(0, str "p1"), (1, str "p2")] := by decide
+    (view (run goExt {} exClean) 2).refs.map (fun x => (x.1, x.2.1)) = [(0, str "a"), (1, str "c"), (2, str "d")] ∧
+    (view (run goExt {} exClean) 2).rgs.map (fun x => (x.1, x.2.1)) = [(0, str "g3"), (1, str "x"), (2, str "g2")] ∧
+    (view (run goExt {} exClean) 2).pgs.map (fun x => (x.1, x.2.1)) = [(0, str "p1"), (1, str "p2")] ∧
+    (view (run goExt {} exClean) 2).f.comments = [str "x\ty", str "a\tb"] := by decide
 example : ApiBuilt goExt (view (run goExt {} exClean) 2) ∧ UriCanon goExt (view (run goExt {} exClean) 2) :=
   apiBuilt_reachable goExt exClean exClean_clean 2 (by decide)
 
